@@ -59,6 +59,11 @@ RecShape(s) == CASE s = "x" -> << <<"x", FALSE, "n:x">> >>
                  [] s = "x?" -> << <<"x", TRUE, "n:x">> >>
                  [] s = "[1]" -> << <<"[1]", FALSE, "i:1">> >>
                  [] s = "['a-b']" -> << <<"['a-b']", FALSE, "n:a-b">> >>
+                 [] s = "['a b']" -> << <<"['a b']", FALSE, "n:a b">> >>          \* string keys that are not names
+                 [] s = "['1']" -> << <<"['1']", FALSE, "n:1">> >>
+                 [] s = "['a\"b']" -> << <<"['a\"b']", FALSE, "n:a\"b">> >>
+                 [] s = "['']" -> << <<"['']", FALSE, "n:">> >>
+                 [] s = "x,['a b']" -> << <<"x", FALSE, "n:x">>, <<"['a b']", FALSE, "n:a b">> >>
                  [] s = "[string]" -> << <<"[string]", FALSE, "t:string">> >>
                  [] s = "x,[string]" -> << <<"x", FALSE, "n:x">>, <<"[string]", FALSE, "t:string">> >>
 
@@ -188,6 +193,8 @@ IntTab(n) == CASE n = "0" -> <<"0", "0">>
                [] n = "-max" -> <<"-9223372036854775807", "-9223372036854775807">>
 IntIds == {"0", "1", "2", "-1", "-2", "hex", "i32", "-i32", "f53", "max", "-max"}
 BoolIds == {"true", "false"}
+\* the literals that start with the unary minus are exactly NegLits (see Level)
+ASSUME NegLits = {IntTab(n)[1] : n \in {"-1", "-2", "-i32", "-max"}}
 
 RECURSIVE SrcJoin(_), CpJoin(_)
 SrcJoin(cs) == IF cs = <<>> THEN "" ELSE ChTab(Head(cs))[1] \o SrcJoin(Tail(cs))
@@ -197,16 +204,20 @@ LitTab(n) == IF n \in BoolIds THEN <<n, "b:" \o n, "boolean">>
              ELSE IF n \in IntIds THEN <<IntTab(n)[1], "i:" \o IntTab(n)[2], "integer">>
              ELSE <<"'" \o SrcJoin(StrTab(n)) \o "'", "s:" \o CpJoin(StrTab(n)), "string">>
 LitIds == BoolIds \cup IntIds \cup StrIds
-LitOf(text) == LitTab(CHOOSE n \in LitIds : LitTab(n)[1] = text)
+\* (constant tables: TLC evaluates them once)
+LitFn == [n \in LitIds |-> LitTab(n)]
+LitTexts == {LitFn[n][1] : n \in LitIds}
+LitIdOf == [txt \in LitTexts |-> CHOOSE n \in LitIds : LitFn[n][1] = txt]
+LitId(text) == LitIdOf[text]
+LitOf(text) == LitFn[LitIdOf[text]]
 LitNorm(text) == LitOf(text)[2]
 LitBase(text) == LitOf(text)[3]
-LitById(n) == Lit(LitTab(n)[1])
-LitId(text) == CHOOSE n \in LitIds : LitTab(n)[1] = text
+LitById(n) == Lit(LitFn[n][1])
 \* the annotation texts are pairwise different (LitOf is well defined)
-ASSUME \A m, n \in LitIds : m # n => LitTab(m)[1] # LitTab(n)[1]
+ASSUME \A m, n \in LitIds : m # n => LitFn[m][1] # LitFn[n][1]
 
 \* mechanism class of a literal (finding signatures): what its rendering has to get right
-Ctl == {"nul", "soh", "bel", "esc", "us", "del", "nel"}
+Ctl == {"nul", "soh", "bel", "us", "del", "nel"}
 Digits == {"1", "2"}
 StrFeat(cs) ==
   (IF \E i \in 1..Len(cs) : cs[i] = "dq" THEN {"string-literal-with-quote"} ELSE {}) \cup
@@ -216,12 +227,16 @@ StrFeat(cs) ==
    THEN {"string-literal-with-control-character-before-digit"} ELSE {}) \cup
   (IF \E i \in 1..Len(cs) : cs[i] \in Ctl /\ ~(i < Len(cs) /\ cs[i + 1] \in Digits)
    THEN {"string-literal-with-control-character"} ELSE {}) \cup
+  (IF \E i \in 1..Len(cs) - 1 : cs[i] = "esc" /\ cs[i + 1] \in Digits
+   THEN {"string-literal-with-escape-character-before-digit"} ELSE {}) \cup
+  (IF \E i \in 1..Len(cs) : cs[i] = "esc" /\ ~(i < Len(cs) /\ cs[i + 1] \in Digits)
+   THEN {"string-literal-with-escape-character"} ELSE {}) \cup
   (IF \E i \in 1..Len(cs) : cs[i] \in {"eacute", "cjk", "astral"} THEN {"string-literal-non-ascii"} ELSE {}) \cup
   (IF cs = <<>> THEN {"string-literal-empty"} ELSE {})
-LitFeat(text) == LET n == LitId(text) IN
-                 IF n \in StrIds THEN StrFeat(StrTab(n))
-                 ELSE IF n \in {"i32", "-i32", "f53", "max", "-max"} THEN {"integer-literal-large"}
-                 ELSE {}
+LitFeatFn == [n \in LitIds |-> IF n \in StrIds THEN StrFeat(StrTab(n))
+                                ELSE IF n \in {"i32", "-i32", "f53", "max", "-max"} THEN {"integer-literal-large"}
+                                ELSE {}]
+LitFeat(text) == LitFeatFn[LitId(text)]
 
 \* ---- normal form (what a term denotes, independent of how it is written): uniform records [k, n, m, keys];
 \*      optionals are unions with nil, union members are a set (the comparison ignores their order),
